@@ -421,6 +421,201 @@ theorem allBeforeEnd_eq_stdoutOf : ∀ (rs : List Rec),
         · have : (r.typ == 6) = false := by simpa using h6
           simp [this, he, ih']
 
+/-! ### the call-level bufio model refines to the abstraction used by `writePairsLoop` / `requestRecords` -/
+theorem BW.write_fits (d : Bool) (b : BW) (p : Bytes) (h : p.length ≤ maxWrite - b.buf.length) :
+    BW.write d b p = { b with buf := b.buf ++ p } := by
+  unfold BW.write BW.writeLoop
+  have : ¬ p.length > maxWrite - b.buf.length := by omega
+  simp [this]
+
+theorem streamWrite_good (c : Bytes) (h : Good c) : streamWrite c = [c] := by
+  unfold streamWrite
+  obtain ⟨h1, h2⟩ := h
+  cases hl : c.length with
+  | zero => omega
+  | succ n =>
+    unfold chunks
+    have h0 : ¬ c.length = 0 := by omega
+    simp only [h0, if_false]
+    have ht : c.take maxWrite = c := List.take_of_length_le h2
+    have hd : c.drop maxWrite = [] := List.drop_eq_nil_of_le h2
+    rw [ht, hd]
+    cases n <;> simp [chunks]
+
+theorem streamWrite_nil : streamWrite [] = [] := by simp [streamWrite, chunks]
+
+theorem flush_records (b : BW) (hb : b.buf.length ≤ maxWrite) :
+    (b.flush.out.map streamWrite).flatten = (b.out.map streamWrite).flatten ++ streamWrite b.buf := by
+  unfold BW.flush
+  by_cases h0 : b.buf.length = 0
+  · have : b.buf = [] := List.eq_nil_of_length_eq_zero h0
+    simp [h0, this, streamWrite_nil]
+  · simp [h0]
+
+theorem writePairsBW_eq : ∀ (pairs : List (Bytes × Bytes)) (nn : Nat) (b : BW),
+    nn = b.buf.length → b.buf.length ≤ maxWrite →
+    (writePairsBW pairs nn b).map BW.records =
+      writePairsLoop pairs nn b.buf (b.out.map streamWrite).flatten := by
+  intro pairs
+  induction pairs with
+  | nil =>
+    intro nn b _ hb
+    simp [writePairsBW, writePairsLoop, BW.records, flush_records b hb]
+  | cons p rest ih =>
+    intro nn b hnn hb
+    obtain ⟨k, v⟩ := p
+    unfold writePairsBW writePairsLoop
+    by_cases hp : panics k v = true
+    · simp [hp]
+    · have hp' : panics k v = false := by simpa using hp
+      simp only [hp', Bool.false_eq_true, if_false]
+      have hlen : (encPair k (truncVal k v)).length ≤ maxWrite := by
+        have := encPair_length_le k (truncVal k v)
+        have := truncVal_bound k v hp'
+        omega
+      have hm : (encSize k.length ++ encSize (truncVal k v).length).length + k.length + (truncVal k v).length =
+          (encPair k (truncVal k v)).length := by simp [encPair]; omega
+      rw [hm]
+      have hE : (encPair k (truncVal k v)).length =
+          (encSize k.length).length + (encSize (truncVal k v).length).length + k.length + (truncVal k v).length := by
+        simp [encPair]; omega
+      by_cases hfl : nn + (encPair k (truncVal k v)).length > maxWrite
+      · simp only [hfl, decide_true, if_true, Nat.zero_add]
+        have hfb : b.flush.buf = [] := by
+          unfold BW.flush; split
+          · exact List.eq_nil_of_length_eq_zero (by assumption)
+          · rfl
+        have w1 : (encSize k.length ++ encSize (truncVal k v).length).length ≤ maxWrite - b.flush.buf.length := by
+          rw [hfb]; simp only [List.length_append, List.length_nil]; omega
+        rw [BW.write_fits true b.flush _ w1]
+        have w2 : k.length ≤ maxWrite -
+            ({ b.flush with buf := b.flush.buf ++ (encSize k.length ++ encSize (truncVal k v).length) } : BW).buf.length := by
+          simp only [hfb, List.nil_append, List.length_append]; omega
+        rw [BW.write_fits false _ k w2]
+        have w3 : (truncVal k v).length ≤ maxWrite - ({ b.flush with buf := b.flush.buf ++
+            (encSize k.length ++ encSize (truncVal k v).length) ++ k } : BW).buf.length := by
+          simp only [hfb, List.nil_append, List.length_append]; omega
+        rw [BW.write_fits false _ _ w3]
+        rw [ih _ _ (by simp only [hfb, List.nil_append, List.length_append]; omega)
+          (by simp only [hfb, List.nil_append, List.length_append]; omega)]
+        simp only [hfb, List.nil_append, flush_records b hb]
+        simp [encPair]
+      · simp only [hfl, decide_false, Bool.false_eq_true, if_false]
+        have w1 : (encSize k.length ++ encSize (truncVal k v).length).length ≤ maxWrite - b.buf.length := by
+          simp only [List.length_append]; omega
+        rw [BW.write_fits true b _ w1]
+        have w2 : k.length ≤ maxWrite -
+            ({ b with buf := b.buf ++ (encSize k.length ++ encSize (truncVal k v).length) } : BW).buf.length := by
+          simp only [List.length_append]; omega
+        rw [BW.write_fits false _ k w2]
+        have w3 : (truncVal k v).length ≤ maxWrite - ({ b with buf := b.buf ++
+            (encSize k.length ++ encSize (truncVal k v).length) ++ k } : BW).buf.length := by
+          simp only [List.length_append]; omega
+        rw [BW.write_fits false _ _ w3]
+        rw [ih _ _ (by simp only [List.length_append]; omega) (by simp only [List.length_append]; omega)]
+        simp [encPair]
+
+theorem bodyBW_records (body : Bytes) : (bodyBW body).records = streamWrite body ++ [[]] := by
+  unfold bodyBW
+  by_cases h : body.length ≤ maxWrite
+  · rw [BW.write_fits true _ _ (by simpa using h)]
+    simp only [BW.records, List.nil_append]
+    rw [flush_records _ (by simpa using h)]
+    simp
+  · have hlt : maxWrite < body.length := by omega
+    have hw : BW.write true ⟨[], []⟩ body = ⟨[], [body]⟩ := by
+      simp [BW.write, BW.writeLoop, hlt]
+    rw [hw]
+    simp [BW.records, BW.flush]
+
+/-! ### environment building -/
+theorem lookup_append (k : Bytes) (a b : List Op) : lookup k (a ++ b) = b.foldl (step k) (lookup k a) := by
+  simp [lookup, List.foldl_append]
+
+theorem foldl_step_irrelevant (k : Bytes) : ∀ (ops : List Op), (∀ o ∈ ops, o.key ≠ k) →
+    ∀ st, ops.foldl (step k) st = st := by
+  intro ops
+  induction ops with
+  | nil => intro _ st; rfl
+  | cons o rest ih =>
+    intro h st
+    have ho := h o (List.mem_cons_self ..)
+    simp only [List.foldl_cons]
+    have : step k st o = st := by
+      cases o <;> simp_all [step, Op.key]
+    rw [this]
+    exact ih (fun q hq => h q (List.mem_cons_of_mem _ hq)) st
+
+theorem hdrOps_http (i : RtIn) : ∀ o ∈ hdrOps i, isHttpKey o.key = true := by
+  intro o ho
+  unfold hdrOps at ho
+  obtain ⟨h, _, hh⟩ := List.mem_filterMap.mp ho
+  by_cases hn : dashUnd (upper h.1) = sPROXY
+  · simp [hdrOp, hn] at hh
+  · simp only [hdrOp, hn, if_false, Option.some.injEq] at hh
+    subst hh
+    simp [Op.key, isHttpKey, sHTTP_]
+
+theorem hdrOps_not_proxy (i : RtIn) : ∀ o ∈ hdrOps i, o.key ≠ kHTTP_PROXY := by
+  intro o ho
+  unfold hdrOps at ho
+  obtain ⟨h, _, hh⟩ := List.mem_filterMap.mp ho
+  by_cases hne : dashUnd (upper h.1) = sPROXY
+  · simp [hdrOp, hne] at hh
+  · simp only [hdrOp, hne, if_false, Option.some.injEq] at hh
+    subst hh
+    intro heq
+    apply hne
+    have : kHTTP_PROXY = sHTTP_ ++ sPROXY := by decide
+    rw [this] at heq
+    simp only [Op.key] at heq
+    exact List.append_cancel_left heq
+
+/-- the static part stores the same values under `k` whatever the request headers are, for every key except the two
+    that are read from the headers -/
+theorem static_lookup (i : RtIn) (hdrs' : List (Bytes × List Bytes)) (k : Bytes)
+    (h1 : k ≠ kCONTENT_LENGTH) (h2 : k ≠ kCONTENT_TYPE) :
+    lookup k (staticA ++ staticH i ++ staticB i) =
+      lookup k (staticA ++ staticH { i with hdrs := hdrs' } ++ staticB { i with hdrs := hdrs' }) := by
+  have hB : staticB { i with hdrs := hdrs' } = staticB i := rfl
+  rw [hB, lookup_append, lookup_append, lookup_append, lookup_append]
+  have e1 : ∀ j : RtIn, (staticH j).foldl (step k) (lookup k staticA) = lookup k staticA := by
+    intro j
+    apply foldl_step_irrelevant
+    intro o ho
+    simp only [staticH, List.mem_cons, List.mem_nil_iff, or_false] at ho
+    rcases ho with rfl | rfl
+    · exact fun h => h1 h.symm
+    · exact fun h => h2 h.symm
+  rw [e1, e1]
+
+theorem env_core (i : RtIn) (hdrs' : List (Bytes × List Bytes)) (k : Bytes)
+    (h1 : k ≠ kCONTENT_LENGTH) (h2 : k ≠ kCONTENT_TYPE)
+    (h3 : ∀ o ∈ hdrOps i, o.key ≠ k) (h3' : ∀ o ∈ hdrOps { i with hdrs := hdrs' }, o.key ≠ k) :
+    lookup k (envLog i) = lookup k (envLog { i with hdrs := hdrs' }) := by
+  have hp : pathInfoOps { i with hdrs := hdrs' }
+      (staticA ++ staticH { i with hdrs := hdrs' } ++ staticB { i with hdrs := hdrs' }) =
+      pathInfoOps i (staticA ++ staticH i ++ staticB i) := by
+    unfold pathInfoOps
+    rw [← static_lookup i hdrs' kPATH_INFO (by decide) (by decide)]
+  have hE : envOps { i with hdrs := hdrs' } = envOps i := rfl
+  unfold envLog
+  simp only [hp, hE]
+  rw [lookup_append, lookup_append, lookup_append, lookup_append]
+  rw [lookup_append _ _ (finalOps _), lookup_append _ _ (hdrOps _), lookup_append _ _ (envOps i), lookup_append _ _ (pathInfoOps _ _)]
+  rw [static_lookup i hdrs' k h1 h2]
+  rw [foldl_step_irrelevant k (hdrOps i) h3, foldl_step_irrelevant k (hdrOps _) h3']
+  have hf : ∀ (j : RtIn) st, j.method = i.method → j.contentLength = i.contentLength →
+      (finalOps j).foldl (step k) st = (finalOps i).foldl (step k) st := by
+    intro j st hm hc
+    simp only [finalOps, List.foldl_cons, List.foldl_nil, hm, hc]
+    have : ∀ v st, step k st (Op.set kCONTENT_TYPE v) = st := by
+      intro v st
+      have : ¬ kCONTENT_TYPE = k := fun h => h2 h.symm
+      simp [step, this]
+    rw [this, this]
+  rw [hf { i with hdrs := hdrs' } _ rfl rfl]
+
 /-- a 65493-byte string (one byte more than fits beside an empty name / value) for the witnesses -/
 def big : Bytes := List.replicate 65493 0
 theorem big_length : big.length = 65493 := List.length_replicate ..
